@@ -28,13 +28,13 @@ def load(prop=None, k=None):
     return ms
 
 
-def run_parallel(ms, jobs):
+def run_parallel(ms, jobs, verbose=True):
     """split the mutants over `jobs` worker processes, each with its own scratch copy and target dir"""
     import concurrent.futures
     chunks = [ms[i::jobs] for i in range(jobs)]
     res = []
     with concurrent.futures.ProcessPoolExecutor(max_workers=jobs) as ex:
-        futs = [ex.submit(run, ch, False, True, os.path.join(VERIF, '.cache', 'target-w%d' % i))
+        futs = [ex.submit(run, ch, False, verbose, os.path.join(VERIF, '.cache', 'target-w%d' % i))
                 for i, ch in enumerate(chunks) if ch]
         for f in futs:
             res += f.result()
